@@ -420,3 +420,21 @@ func VH_C05_typed(variant int) {
 	vassert(vhSetEq(gotN, want), "typed-input-matches-like-generic")
 	vreach("end")
 }
+
+// VH_C05_repeated_compound: a variable occurring twice over compound (map) values must
+// find EQUAL values. (Witness harness of an open finding: the matcher re-matches the
+// first binding as a partial pattern, so the answer depends on the map iteration order.)
+func VH_C05_repeated_compound() {
+	b := &vhB{prefix: "d", lite: true}
+	s1, s2, s3 := b.str(), b.str(), b.str()
+	p := map[string]interface{}{"k1": "?x", "k2": "?x"}
+	d := map[string]interface{}{
+		"k1": map[string]interface{}{"a": s1},
+		"k2": map[string]interface{}{"a": s2, "b": s3},
+	}
+	got, err := Matches(nil, p, d)
+	vassert(err == nil, "no-error-in-fragment")
+	// the two values are different maps (one has an extra key): no binding can exist
+	vassert(len(got) == 0, "repeated-variable-needs-equal-values")
+	vreach("end")
+}
